@@ -139,7 +139,8 @@ static void lp_run (long item)
 				if (T->status == TRUTH_OPTIMAL && !mpq_equal (oo->objval, T->val)) {
 					lp_desc (L, &x, desc, sizeof desc);
 					char *a = q_str (oo->objval), *b = q_str (T->val);
-					viol (k == 0 ? "C03" : "C04", "value-differs", "reported optimum %s but the true optimum is %s: %s", a, b, desc);
+					if (exact) viol ("C03", "value-differs", "reported optimum %s but the true optimum is %s: %s", a, b, desc);
+					if (k > 0 || !exact) viol ("C04", "value-differs", "reported optimum %s but the true optimum is %s: %s", a, b, desc);
 					free (a); free (b);
 				}
 			}
@@ -178,7 +179,9 @@ static void lp_run (long item)
 					lp_desc (L, &x, desc, sizeof desc);
 					char sig[96];
 					snprintf (sig, sizeof sig, "%s-truth-%s-got-%s", en, status_name (want), oo->rval ? "ERR" : status_name (oo->status));
-					viol (k == 0 ? "C03" : "C04", sig, "truth is %s but %s returned rval=%d status=%s%s: %s", status_name (want), en, oo->rval, status_name (oo->status), rep ? " [second solve]" : "", desc);
+					/* C03 speaks of the exact solver with default limits, however it is driven; C04 of every way of driving the library */
+					if (exact) viol ("C03", sig, "truth is %s but %s returned rval=%d status=%s%s: %s", status_name (want), en, oo->rval, status_name (oo->status), rep ? " [second solve]" : "", desc);
+					if (k > 0 || !exact) viol ("C04", sig, "truth is %s but %s returned rval=%d status=%s%s: %s", status_name (want), en, oo->rval, status_name (oo->status), rep ? " [second solve]" : "", desc);
 				}
 			}
 			/* ---- C04: agreement with the default configuration */
